@@ -85,7 +85,9 @@ func Display(v Val) (s string, plain bool) {
 			return strconv.FormatFloat(x, 'f', -1, 64), false
 		}
 		a := math.Abs(x)
-		if a >= 1e-4 && a < 1e15 {
+		// every shortest-round-trip convention prints these positionally (Go's %v
+		// switches to exponent notation at 1e6 for non-integral values, others later)
+		if a >= 1e-4 && a < 1e6 {
 			return strconv.FormatFloat(x, 'f', -1, 64), true
 		}
 		return strconv.FormatFloat(x, 'g', -1, 64), false
@@ -108,6 +110,9 @@ func CheckNumberText(x float64, text string) bool {
 	back, err := strconv.ParseFloat(text, 64)
 	if err != nil || back != x {
 		return false
+	}
+	if x == math.Trunc(x) && isPlainInteger(text) {
+		return true // an integral value of large magnitude written out in full
 	}
 	return digitsOf(text) == digitsOf(strconv.FormatFloat(x, 'e', -1, 64))
 }
@@ -134,4 +139,19 @@ func digitsOf(s string) string {
 		j--
 	}
 	return string(d[i:j])
+}
+
+func isPlainInteger(s string) bool {
+	if len(s) > 0 && (s[0] == '-' || s[0] == '+') {
+		s = s[1:]
+	}
+	if s == "" {
+		return false
+	}
+	for i := 0; i < len(s); i++ {
+		if s[i] < '0' || s[i] > '9' {
+			return false
+		}
+	}
+	return true
 }
